@@ -93,74 +93,31 @@ def run(rep: Report, tier: str) -> None:  # noqa: C901
     if not passes:
         rep.add(transp.fnd("R04.2", "join_type=node.op", vj, vj.node.lineno, "visit_JoinOp does not pass the node's own operator as join_type to the builder"))
 
-    # ---- R04.3 ----
-    sites: List[Tuple[str, ast.AST, FuncInfo]] = []
-    for f in [vj] + [h for n, h in transp.typed(P).owners.items() if n.startswith("_join") or n == "_joined_key_ref"]:
-        for n in walk_no_nested(f.node):
-            if isinstance(n, ast.If) and "FULL_JOIN" in src(n.test):
-                body = " ".join(src(x) for x in n.body)
-                if "COALESCE" in body:
-                    sites.append((f.name, n, f))
-    # SELECT site: inside visit_JoinOp appending to cols; ON site: reaches the `on=` argument of builder.join
-    select_ok = any(fn == "visit_JoinOp" and "cols.append" in " ".join(src(x) for x in n.body) for fn, n, _f in sites)
-    on_expr = next((k.value for c in passes for k in c.keywords if k.arg == "on"), None) if passes else None
-    on_src = ""
-    if isinstance(on_expr, ast.Name):
-        # follow the definitions of the ON string
-        seen: Set[str] = set()
-        work = [on_expr.id]
-        while work:
-            v = work.pop()
-            if v in seen:
-                continue
-            seen.add(v)
-            for n in walk_no_nested(vj.node):
-                if isinstance(n, ast.Assign) and any(isinstance(t, ast.Name) and t.id == v for t in n.targets):
-                    on_src += " " + src(n.value)
-                    work.extend(x.id for x in ast.walk(n.value) if isinstance(x, ast.Name))
-    on_ok = any(fn in on_src for fn, _n, _f in sites if fn != "visit_JoinOp") or ("FULL_JOIN" in on_src and "COALESCE" in on_src)
-    rep.instance("R04.3", "select-list", sample=select_ok)
-    rep.instance("R04.3", "on-clause", sample=on_ok)
-    if not select_ok:
-        rep.add(transp.fnd("R04.3", "select-list", vj, vj.node.lineno,
-                           "for full_join the key columns of the result are not COALESCEd across the operands: keys of datapoints that exist only in a later operand come out NULL"))
-    if not on_ok:
-        rep.add(transp.fnd("R04.3", "on-clause", vj, vj.node.lineno,
-                           "for full_join the ON clause of a further operand compares its key with the column of ONE earlier operand, which is NULL for datapoints that came only "
-                           "from another operand: full_join(DS_1, DS_2, DS_3) with a key in DS_2 and DS_3 but not in DS_1 returns that key twice"))
-
+    # ---- R04.3 (decided on the evaluated handler, see _join_model: SELECT key columns and ON references of full_join) ----
     # ---- R04.4 ----
     transp.state_discipline(P, rep, "R04.4", only_attrs={"_join_alias_map", "_consumed_join_aliases", "_in_clause", "_current_dataset", "_column_prefix", "current_assignment"}, parts="ab")
 
-    # ---- R04.5 ----
-    nvl_var = None
-    for n in walk_no_nested(vj.node):
-        if isinstance(n, ast.Assign) and "_resolve_join_nvl_defaults" in src(n.value) and isinstance(n.targets[0], ast.Name):
-            nvl_var = n.targets[0].id
-    if nvl_var is None:
-        raise AnalysisError("visit_JoinOp: nvl defaults variable not found")
-    # branches of the projection loop that emit `<alias>.<col>` for a non-key component
+    # ---- R04.5 nvl defaults reach every non-key component they name (evaluated handler) ----
+    from sa import structmodel as _sm5
+    from sa.e6 import Unmodelled as _Unm5
+    M5 = _sm5.Model(P)
     n_br = 0
-    for n in walk_no_nested(vj.node):
-        if isinstance(n, ast.If) and "is_join_col" in src(n.test):
-            cur: Optional[ast.If] = n
-            branches: List[Tuple[str, List[ast.stmt]]] = []
-            while cur is not None:
-                nxt = cur.orelse[0] if len(cur.orelse) == 1 and isinstance(cur.orelse[0], ast.If) else None
-                if nxt is None and cur.orelse:
-                    branches.append(("else", cur.orelse))
-                if cur is not n:
-                    branches.append((src(cur.test), cur.body))
-                cur = nxt
-            for label, body in branches:
-                n_br += 1
-                txt = " ".join(src(x) for x in body)
-                rep.instance("R04.5", f"branch/{label[:40]}")
-                if "cols.append" in txt and nvl_var not in txt:
-                    rep.add(transp.fnd("R04.5", f"branch/{label[:40]}", vj, body[0].lineno,
-                                       f"the `{label}` branch of the join projection emits a non-key component without consulting the nvl defaults: "
-                                       f"`nvl(Me_1, 0)` in the join has no effect for components emitted here"))
-    rep.floor("R04.5 projection branches", n_br, 2)
+    for op5 in ("inner_join", "left_join", "full_join"):
+        ops5 = [M5.ds("d1", ["A"], ["M1", "X"]), M5.ds("d2", ["A"], ["M2", "X"])]
+        try:
+            r5 = _sm5.join_sql(M5, op5, [(d.name, d, None) for d in ops5], None, nvl={"X": "⟦dX⟧", "M2": "⟦dM2⟧"})
+        except _Unm5 as e:
+            raise AnalysisError(f"R04.5: visit_JoinOp outside the evaluator's language: {e}")
+        if r5[0] != "ok" or isinstance(r5[1], str):
+            raise AnalysisError(f"R04.5: visit_JoinOp with nvl defaults not evaluable: {r5}")
+        for cname, dflt in (("d1#X", "⟦dX⟧"), ("d2#X", "⟦dX⟧"), ("M2", "⟦dM2⟧")):
+            item = next((c_ for c_ in r5[1].cols if c_.rstrip().endswith(f'AS "{cname}"') or c_.strip().endswith(f'."{cname}"')), None)
+            n_br += 1
+            rep.instance("R04.5", f"nvl/{op5}/{cname}", sample={"item": item})
+            if item is None or "COALESCE(" not in item.upper() or dflt not in item:
+                rep.add(transp.fnd("R04.5", f"nvl/{op5}/{cname}", vj, vj.node.lineno,
+                                   f"{op5}(d1, d2 nvl(X, …), nvl(M2, …)): the result component {cname} is emitted as `{item}` - the declared default is not applied (COALESCE(<column>, <default>))"))
+    rep.floor("R04.5 projection items with a default", n_br, 9)
 
     # ---- R04.6 / R04.7: Join.validate and visit_JoinOp evaluated (E6) on abstract operand structures ----
     _join_model(P, rep, vj)
@@ -245,6 +202,16 @@ def _join_model(P: Program, rep: Report, vj: FuncInfo) -> None:  # noqa: C901
                 rep.add(transp.fnd("R04.7", key + "/select", vj, vj.node.lineno,
                                    f"{op} over operands with identifiers {ids_list}" + (f" using {using}" if using else "") + f": semantic analysis gives the components {want} "
                                    f"but the generated SELECT delivers {sorted(cols)}"))
+            if op == "full_join":
+                for kname in sorted(set().union(*(set(o_.get_identifiers_names()) for o_ in ops))):
+                    have_all = [o_.name for o_ in ops if kname in o_.components]
+                    item = next((c_ for c_ in b.cols if _re.search(r'AS "' + _re.escape(kname) + r'"\s*$', c_) or c_.strip().endswith(f'."{kname}"')), None)
+                    refs_sel = _re.findall(r'(\w+)\."' + _re.escape(kname) + '"', item or "")
+                    rep.instance("R04.3", f"{key}/select/{kname}", sample={"item": item})
+                    if len(have_all) > 1 and (item is None or not item.strip().upper().startswith("COALESCE(") or sorted(refs_sel) != sorted(have_all)):
+                        rep.add(transp.fnd("R04.3", key + f"/select-coalesce/{kname}", vj, vj.node.lineno,
+                                           f"full_join over {label}: the key column {kname} of the result is `{item}`; it must be the COALESCE across {have_all} "
+                                           f"(keys of datapoints that exist only in a later operand come out NULL otherwise)"))
             if b.alias != ops[0].name or len(b.joins) != len(ops) - 1:
                 rep.add(transp.fnd("R04.7", key + "/from", vj, vj.node.lineno, f"{op} over {label}: FROM is `{b.table} {b.alias}` with {len(b.joins)} joined operands; expected the first operand and {len(ops) - 1} joins, in order"))
                 continue
